@@ -129,6 +129,28 @@ CHECKS["C19"] = dict(
          "beyond 3 objects, not exhaustive.",
     technique="TLC model checking of PointObj.tla + replay of TLC-generated behaviours into real objects (S->C)",
     ref="3/C19")
+CHECKS["C08"] = dict(
+    text="PointCodec.tla states the acceptance rule (exact lengths and prefix, coordinates in [0, p-1], curve equation, residue and "
+         "parity for compressed, parity byte for hybrid, subgroup membership by n*P with the textbook group law). TLC checks the "
+         "codec on the model (round trips, exactness per prefix, uniqueness) for five toy curves with 2-byte fields and decides "
+         "every recorded from_string / from_der / from_pem / from_public_point call: prefixes {none,00..08,ff} x x in [0,p+8] + "
+         "aliases x (roots, roots+-1, y+p, 0, p-1, p), compressed prefixes x every x (thorough: all 65536), every length 0..9, every "
+         "on-curve point object incl. the points of order 2, 4, 2n, 4n of the cofactor curves. Production curves: constructed "
+         "classes (off-curve, non-residue x, parity flipped, x+p / y+p aliases, wrong prefix/length, secp112r2 small-subgroup points).",
+    note="Trusted: TLC, CPython/harness arithmetic to construct inputs. 1-byte fields excluded (raw and compressed lengths coincide). "
+         "Known finding F8: order-2 / order-2n points accepted on cofactor curves.",
+    technique="TLC model checking of PointCodec.tla + TLC trace validation (C->S) of the accept/reject truth table on toy curves",
+    ref="3/C08")
+CHECKS["C09"] = dict(
+    text="KeyCodec.tla is a byte-exact encoder and strict decoder for SubjectPublicKeyInfo, ECPrivateKey and PKCS#8 plus base64/PEM "
+         "armour, on byte sequences (production size). C->S: every serialisation the library produces for 17 curves + 3 toy curves x "
+         "boundary scalars (leading-zero scalars and coordinates found by search) x 3 point encodings x 3 formats x DER/PEM is "
+         "compared byte for byte by TLC and decoded back by TLC's strict decoder; S->C: TLC writes 11 variants per key with its own "
+         "encoder (no publicKey, PKCS#8 v0, id-ecDH/id-ecMQV, short private key, PEM) and the library must load them to the same "
+         "scalar, point and curve; library round trips must give equal keys on the same curve with identical deterministic signatures.",
+    note="Trusted: TLC, CPython, hashlib. PKCS#8 version 0 or 1 both count as canonical output.",
+    technique="TLC trace validation (C->S) of serialised bytes + keys generated by the TLA+ encoder loaded into the library (S->C)",
+    ref="3/C09")
 NOT_YET = {}
 
 
